@@ -31,6 +31,7 @@ ASSUMPTIONS = [
     'chunks per read are 0..2 characters (every splitting of the bounded stream is produced by construction)',
     'transport read_nonblocking is replaced by a scripted one; the real transports are covered by C05/C06/C07',
 ]
+STATES_MEANING = 'distinct canonical states (hidden _before, hidden _buffer, reference pending text, remaining budget, eof, aliasing) after deduplication, summed over tasks; transitions = (state, call, answer sequence) triples executed on the real code'
 REQUIRED_FLAGS = {'boundary_inside_match': 1, 'timeout_between_calls': 1, 'empty_read': 1,
                   'zero_width_match': 1, 'window_trim': 1}
 
